@@ -612,6 +612,18 @@ def run(pid, tier, seed, replay=None):
             if fails.get(s["sid"]):
                 violations.append(dict(kind="relation", clauses=sorted(set(fails[s["sid"]]))[:12],
                                        pair=descs[s["sid"]]))
+    implicit_stage = None
+    if pid == "C15":
+        # relabelling in IMPLICIT mode: the explicit vectors of a subspace listed in any order
+        from . import core_implicit
+
+        v_, implicit_stage = core_implicit.related_stage(
+            seed, 80_000, p, "C15", [dict(solver="direct", interleaved=True), dict(solver="direct", sparse_terms=True),
+                                     dict(solver="direct", nonhermitian=True, interleaved=True),
+                                     dict(solver="direct")], 12 if quick else 96)
+        violations.extend(v_)
+        stats["states"] += implicit_stage["states"]
+        stats["transitions"] += implicit_stage["transitions"]
     control = None
     if sessions:
         bad = copy.deepcopy(sessions[0])
@@ -633,7 +645,7 @@ def run(pid, tier, seed, replay=None):
         evaluations=len(sessions), distinct_nontrivial=len({str(d) for d in descs.values()}),
         rule="one evaluation = a pair (triple) of real runs related as the property states; distinct by both instance "
              "descriptions", pairs_per_relation=per_kind, crashes=len(crashes), crash_examples=crashes[:3],
-        generator_skips=skipped, negative_control=control, exhaustive=False)
+        generator_skips=skipped, negative_control=control, implicit_mode_stage=implicit_stage, exhaustive=False)
     common.write_evidence(pid, tier, seed, coverage, time.time() - t0, len(violations),
                           ["outputs compared in GF(p^2); float runs on dyadic instances (exact)",
                            "scales / shifts are powers of two on float instances so that both runs stay exact"])
